@@ -10,13 +10,14 @@ def prop (j : Json) : Except String Json := do
   let cte ← getBool j "cte"
   let memo ← getNat j "memoize"
   let qs ← (← getArr j "queries").toList.mapM fun q => do
-    let l ← intList (← q.getArr?)
-    match l with
-    | [t, s] => pure (t, s)
+    let a ← q.getArr?
+    match a.toList with
+    | [t, s] => pure ((← t.getInt?), (← s.getInt?), (none : Option Nat))
+    | [t, s, w] => pure ((← t.getInt?), (← s.getInt?), (match w.getNat? with | .ok n => some n | .error _ => none))
     | _ => throw "bad query"
-  let A := m2Alg cte
-  let (p, us) := calls A (init A cte memo) qs
-  pure <| Json.mkObj [("answers", Json.arr (us.map m2Json).toArray), ("times", jInts p.times),
-    ("t_last", (p.sol.tl : Json))]
+  let As := fun w => m2Alg cte w
+  let (q, us) := callsW As ⟨init (As none) cte memo, none⟩ qs
+  pure <| Json.mkObj [("answers", Json.arr (us.map m2Json).toArray), ("times", jInts q.p.times),
+    ("t_last", (q.p.sol.tl : Json))]
 
 end Qv.Drv.C11
